@@ -90,7 +90,7 @@ CLAIMED = {
         category="model_checking",
         technique="TLA+ spec Clouds.tla (kernel regimes; constant models; map lookup as altitude of the map pressure at a corner of the containing cell, on StdAtmosphere.tla) with the monthly maps as TLC constants; MCClouds lattice over the sphere; CphotAng.run(..., cloudf) and CloudTopHeight events validated by TraceClouds.tla",
         text="MCClouds walks the sphere (0.25 deg x 0.625 deg incl. poles, +-180 deg, longitudes up to +-360 deg) and shows the cell predicate total and the regimes exhaustive. Kernel events use cloud tops at -inf, first segment -ulp / exact / +ulp, an inner segment, penultimate segment exact / +ulp, last segment and +inf (segment altitudes from the public slant_depth / valid_arrays): bit-identical below, exactly zero above. The cloud models are called on sphere lattices and on ground positions produced by the geometry stage; for the monthly maps (read with astropy.io.fits and exported to TLC) the returned altitude must equal the standard-atmosphere altitude of one of the four corner pressures of the containing cell.",
-        note="Assumes: the value in the 'in between' regime is checked here only for finiteness and sign; its numerical value is the business of Cherenkov.tla (C06). Any corner of the containing cell conforms.",
+        note="The 'in between' regime is decided by Cherenkov.tla (cloud tops half-way between two segment altitudes; float64 hook path at 1e-9, production path at C06 tolerances). Known finding C09-high-cloud-binary32 (tops above 35 km). Any corner of the containing cell conforms.",
         design="4/C09"),
     "C20": dict(
         category="model_checking",
@@ -122,6 +122,12 @@ CLAIMED = {
         text="'A field it reconstructs' is defined without the implementation's mapping table: g is reconstructed iff two files give different Recon(.).g; then Recon(c).g = c.g is required for every run - an invariant over the set of runs that TLC evaluates after the last reconstruction event (MCResultsFile shows it holds for a faithful reconstructor, fails for one that fills a field from the wrong card, and never judges a defaulted field). Final tables of compute() runs over variants in which EVERY configuration field varies, plus synthetic tables (2-D column, Time column, empty table), are written exactly as apps/run.py does and read back: same columns, bit-identical data (digests), every header value (FITS card precision), every representable flattened configuration value present as a HIERARCH Config card, config_from_fits succeeds for every variant.",
         note="Assumes: values FITS cannot represent (non-finite numbers, non-ASCII or long strings) are outside the quantifier; header floats at FITS card precision (astropy truncates str(value) to 20 characters).",
         design="4/C16"),
+    "C06": dict(
+        category="model_checking",
+        technique="TLA+ spec Cherenkov.tla: the shower / photon-yield model in double precision as a state machine over track steps (two passes, Greisen, Hillas, Rayleigh / ozone / aerosol), spec-level checks by TLC (MCCherenkov) and one model evaluation by TLC per recorded CphotAng.run event (TraceCherenkov.tla), production binary32 path and float64 hook path",
+        text="Cherenkov.tla is written from the physical model (DESIGN Appendix A) as scalar folds over steps, wavelength bins, radial bins and energy decades - not a transliteration of the array code - and TLC evaluates it with the Float64 override (~1-4 s per event). MCCherenkov checks termination, finite non-negative outputs, the 1 degree clamp and the cloud regimes on boundary events. Every recorded event (scrambled Sobol design in beta x altitude x log E plus all corners, face points, sub-degree angles, several detector altitudes) is judged twice against the model: the production binary32 outputs with the property's own tolerances (10 % or 0.1 m^-2, 1 % angle, 0.5 % in the median per chunk), and the same kernel run in double precision through the hook at 1e-9, which separates logic changes (cumulative-sum direction, masks, table lookups, index conventions) from rounding. Sub-degree events must be bit-identical to the 1 degree result.",
+        note="Assumes: the hook NUSPACESIM_VERIF_DTYPE=float64 only changes the kernel dtype (if inactive the float64 clauses are reported as not exercised); StrictMath vs libm differences are far below 1e-9; proof over all reals is out of reach - coverage is the design + boundaries.",
+        design="4/C06 and Appendix A"),
 }
 
 NOT_BUILT_REASON = "not claimed yet: its specification module and binding are not finished in this tree (see DESIGN.md section 9 build order); no other technique is substituted"
@@ -152,9 +158,9 @@ def main():
         "setup_cmd": "sh /verif/setup.sh",
         "hooks": {
             "guard": "NUSPACESIM_VERIF_DTYPE",
-            "enable": "checks import nuspacesim from $VERIF_REPO/src (default /repo/src), i.e. the current working tree; the only hook (planned, add-only) is NUSPACESIM_VERIF_DTYPE=float64 in CphotAng.__init__",
+            "enable": "checks import nuspacesim from $VERIF_REPO/src (default /repo/src), i.e. the current working tree; the only hook (add-only, commit 04b3d69) is NUSPACESIM_VERIF_DTYPE=float64 in CphotAng.__init__, set by the C06 / C09 drivers around the construction of the double-precision kernel object",
             "baseline_off_cmd": "cd /repo && env -u NUSPACESIM_VERIF_DTYPE /venv/bin/python -m pytest -ra -q -p no:cacheprovider --timeout=900 --continue-on-collection-errors",
-            "source_commits": [],
+            "source_commits": ["04b3d69"],
             "add_only": True,
         },
         "engines": [{"name": "tlc", "path": "/verif/check", "serves_properties": [c["property_id"] for c in checks],
